@@ -75,3 +75,7 @@ def trusted_base(prop):
 
 def assumptions(prop):
     return ["the failure pattern of the slow queue is finite", "clean stop()/context exit; `with` leaving on an exception is the documented abort path"]
+
+
+for _k in list(RULE):      # RULE-EXTRA: what was added to the exploration after the rounds of seeded changes
+    RULE[_k] += '; plus: the queue made by a thread that ends at once; monitor-only jobs with values of every kind (classes, partials, callable objects, strings) and post-push functions that raise once; line-mode jobs'
